@@ -17,11 +17,11 @@ below say what an `ok` means: the MODEL state rebuilt from the dump (`tableOf`, 
                                   for U = the keys recovered from index entry + stored key tail
                                   (= the oracle's live keys when the dump carries them)
                                   -> `lookup (colOf d) k = absOf d k` for every live key
-                checkIndex d, no multipart table  ->  abstract SlotInv, `Good`: every C09 / C14
-                                  step theorem applies to the dumped state                        PARTIAL
-                                  (the index model stores a value in ONE slot, so the abstract
-                                  SlotInv is not claimed for dumps with a multipart table; their
-                                  tables are covered by the byte-level SlotInv above)
+                checkIndex d  ->  abstract SlotInv (fill mark, free list and the continuation
+                                  slots of the live chains, `Tier.chains`), `Good`: every C09 /
+                                  C14 step theorem applies to the dumped state                    FULL
+                                  (the index model allocates chains slot by slot, so dumps with a
+                                  multipart table are covered too)
   btree         checkTree d   ->  TreeInv (treeOf d), every dumped node reachable exactly once  FULL
 Values are abstracted to "" (the dump carries no value bytes).
 -/
@@ -121,14 +121,15 @@ theorem C14Dump_index_no_misattribution (d : ColumnDump) (h : checkIndex d = tru
   have : k' = k := ok.univ.atail k' k hk' hk (htl.trans ht)
   rw [← this]; exact hm
 
-/-- Dumps without a multipart table: the whole hypothesis `Good` of the C09 / C14 step theorems,
-so e.g. the next planned write on the dumped state cannot panic and keeps the invariants. -/
-theorem C14Dump_index_good (d : ColumnDump) (h : checkIndex d = true)
-    (hm : d.tables.any (·.multipart) = false) :
+/-- Every accepted dump (multipart tables included: the index model records the continuation
+slots of the chains, `colOf` rebuilds them from the dumped chains): the whole hypothesis `Good`
+of the C09 / C14 step theorems, so e.g. the next planned write on the dumped state cannot panic
+and keeps the invariants. -/
+theorem C14Dump_index_good (d : ColumnDump) (h : checkIndex d = true) :
     Good (U d) (colOf d) (absOf d) ∧ SlotInvAbs (colOf d) ∧
       ∀ k op, write (colOf d) k op ≠ .panic := by
   have ok := checkIndex_ok d h
-  have hG := ok.good hm
+  have hG := ok.good
   exact ⟨hG, hG.slots, fun k op => C09_write_no_panic hG (Or.inl rfl) k op⟩
 
 /-! ## btree -/
@@ -225,7 +226,61 @@ example := C14Dump_slots_exactly_once exTable (by decide +kernel) 5 (by decide) 
 example : checkIndex exColumn = true := by decide +kernel
 example : (keysOf exColumn).length = 3 := by decide +kernel
 example := C14Dump_index_sound exColumn (by decide +kernel)
-example := C14Dump_index_good exColumn (by decide +kernel) (by decide +kernel)
+example := C14Dump_index_good exColumn (by decide +kernel)
+/-- a column with ten live keys, one of them stored as a chain of ten parts in the multipart
+table (tier 255), and a free slot in tier 192 (dump of the real crate, `pdbverif c09 --prop C14`) -/
+def exColumnM : ColumnDump :=
+  ⟨0,
+    [⟨16, [(35292, 0, 18259289856708444431), (35292, 1, 8940506554818364160), (35292, 2, 12340538967119102479), (35292, 3, 14859797908059848960), (35292, 4, 12897492673748795678), (35292, 5, 10229964407266345472), (35292, 6, 10555362224585572863), (35292, 7, 12956352182252208911), (35292, 8, 2725069607646790030), (35292, 9, 14759125587259819008)]⟩],
+    [⟨0, 32, false, false, 5, 0,
+      #[[0, 0, 0, 0, 0, 0, 0, 0, 5, 0, 0, 0, 0, 0, 0, 0],
+        [29, 0, 176, 117, 0, 0, 0, 11, 18, 115, 85, 253, 145, 222, 47, 215, 0, 0, 0, 0, 0, 0, 0, 0, 0, 0, 0, 0, 129, 116, 151, 0],
+        [29, 0, 131, 196, 0, 0, 0, 2, 232, 90, 243, 224, 226, 38, 6, 237, 0, 0, 0, 0, 0, 0, 0, 0, 0, 0, 0, 0, 31, 159, 120, 0],
+        [30, 0, 242, 170, 0, 0, 0, 70, 253, 31, 160, 186, 7, 21, 2, 76, 0, 0, 0, 0, 0, 0, 0, 0, 0, 0, 0, 0, 250, 67, 182, 30],
+        [26, 0, 99, 248, 0, 0, 0, 26, 40, 171, 13, 150, 61, 24, 95, 236, 0, 0, 0, 0, 0, 0, 0, 0, 0, 0, 0, 0, 0, 0, 0, 0]]⟩,
+      ⟨15, 48, false, false, 4, 0,
+      #[[0, 0, 0, 0, 0, 0, 0, 0, 4, 0, 0, 0, 0, 0, 0, 0],
+        [46, 0, 17, 123, 0, 0, 0, 17, 3, 101, 177, 25, 42, 29, 207, 21, 0, 0, 0, 0, 0, 0, 0, 0, 0, 0, 0, 0, 255, 118, 32, 191, 155, 80, 21, 109, 154, 14, 94, 164],
+        [46, 0, 220, 34, 0, 0, 0, 15, 21, 101, 242, 40, 248, 175, 79, 20, 0, 0, 0, 0, 0, 0, 0, 0, 0, 0, 0, 0, 55, 69, 233, 97, 21, 91, 24, 59, 25, 20, 214, 81],
+        [46, 0, 38, 224, 0, 0, 0, 50, 82, 114, 53, 139, 75, 34, 205, 30, 0, 0, 0, 0, 0, 0, 0, 0, 0, 0, 0, 0, 168, 92, 57, 8, 98, 85, 127, 130, 123, 159, 167, 143]]⟩,
+      ⟨30, 73, false, false, 2, 0,
+      #[[0, 0, 0, 0, 0, 0, 0, 0, 2, 0, 0, 0, 0, 0, 0, 0],
+        [71, 0, 196, 138, 0, 0, 0, 5, 215, 43, 45, 38, 43, 239, 100, 140, 0, 0, 0, 0, 0, 0, 0, 0, 0, 0, 0, 0, 202, 234, 76, 75, 148, 230, 112, 44, 104, 95, 208, 38]]⟩,
+      ⟨142, 1542, false, false, 2, 0,
+      #[[0, 0, 0, 0, 0, 0, 0, 0, 2, 0, 0, 0, 0, 0, 0, 0],
+        [246, 5, 204, 105, 0, 0, 0, 52, 125, 171, 167, 152, 112, 29, 108, 50, 0, 0, 0, 0, 0, 0, 0, 0, 0, 0, 0, 0, 239, 84, 33, 164, 7, 182, 133, 210, 77, 65, 213, 152]]⟩,
+      ⟨192, 6034, false, false, 2, 1,
+      #[[1, 0, 0, 0, 0, 0, 0, 0, 2, 0, 0, 0, 0, 0, 0, 0],
+        [255, 255, 0, 0, 0, 0, 0, 0, 0, 0, 160, 186, 7, 21, 2, 76, 0, 0, 0, 0, 0, 0, 0, 0, 0, 0, 0, 0, 245, 88, 18, 107, 150, 120, 197, 246, 81, 246, 156, 22]]⟩,
+      ⟨255, 4096, true, false, 11, 0,
+      #[[0, 0, 0, 0, 0, 0, 0, 0, 11, 0, 0, 0, 0, 0, 0, 0],
+        [253, 255, 2, 0, 0, 0, 0, 0, 0, 0, 218, 161, 0, 0, 0, 14, 133, 161, 38, 146, 139, 15, 48, 83, 0, 0, 0, 0, 0, 0, 0, 0, 0, 0, 0, 0, 119, 243, 41, 20],
+        [254, 255, 3, 0, 0, 0, 0, 0, 0, 0, 28, 83, 101, 116, 20, 18, 174, 233, 201, 184, 142, 77, 228, 239, 145, 170, 40, 174, 254, 185, 109, 114, 171, 135, 95, 51, 48, 223, 44, 88],
+        [254, 255, 4, 0, 0, 0, 0, 0, 0, 0, 168, 126, 234, 223, 93, 210, 233, 114, 17, 119, 9, 150, 205, 234, 72, 39, 209, 247, 98, 116, 215, 229, 117, 220, 130, 97, 142, 34, 54, 26],
+        [254, 255, 5, 0, 0, 0, 0, 0, 0, 0, 51, 243, 83, 219, 134, 132, 119, 85, 190, 87, 28, 132, 179, 18, 85, 144, 172, 83, 31, 90, 48, 13, 129, 177, 185, 9, 114, 146, 121, 216],
+        [254, 255, 6, 0, 0, 0, 0, 0, 0, 0, 185, 206, 142, 137, 240, 231, 183, 183, 117, 123, 105, 62, 94, 104, 242, 7, 37, 193, 98, 164, 84, 105, 149, 214, 115, 17, 26, 237, 193, 141],
+        [254, 255, 7, 0, 0, 0, 0, 0, 0, 0, 1, 7, 38, 26, 162, 190, 52, 255, 85, 248, 131, 144, 122, 206, 217, 187, 243, 163, 52, 223, 180, 56, 233, 246, 75, 129, 194, 151, 94, 126],
+        [254, 255, 8, 0, 0, 0, 0, 0, 0, 0, 189, 180, 28, 156, 247, 151, 179, 169, 121, 31, 191, 213, 187, 121, 177, 60, 162, 146, 74, 98, 98, 183, 89, 85, 74, 66, 135, 144, 117, 32],
+        [254, 255, 9, 0, 0, 0, 0, 0, 0, 0, 176, 40, 118, 242, 131, 189, 59, 27, 235, 183, 81, 72, 145, 161, 178, 79, 216, 81, 27, 224, 97, 48, 218, 203, 220, 150, 7, 34, 65, 121],
+        [254, 255, 10, 0, 0, 0, 0, 0, 0, 0, 143, 2, 153, 37, 40, 72, 30, 242, 144, 144, 100, 251, 246, 77, 166, 58, 214, 151, 161, 15, 132, 114, 255, 46, 105, 216, 176, 66, 176, 117],
+        [180, 12, 132, 94, 238, 217, 125, 234, 30, 177, 246, 241, 5, 88, 192, 32, 251, 58, 76, 79, 48, 221, 237, 243, 183, 2, 132, 237, 225, 64, 74, 57, 121, 169, 122, 83, 217, 121, 101, 16]]⟩],
+    some [⟨0x89dc25d1645ecc69, 0xcc69000000347daba798701d6c32000000000000000000000000⟩,
+      ⟨0x89dc7c130f57f2aa, 0xf2aa00000046fd1fa0ba0715024c000000000000000000000000⟩,
+      ⟨0x89dc8df8226d83c4, 0x83c400000002e85af3e0e22606ed000000000000000000000000⟩,
+      ⟨0x89dc927c2e04daa1, 0xdaa10000000e85a126928b0f3053000000000000000000000000⟩,
+      ⟨0x89dcab4266cedc22, 0xdc220000000f1565f228f8af4f14000000000000000000000000⟩,
+      ⟨0x89dcb2fd1940c48a, 0xc48a00000005d72b2d262bef648c000000000000000000000000⟩,
+      ⟨0x89dcb3ce35aa26e0, 0x26e0000000325272358b4b22cd1e000000000000000000000000⟩,
+      ⟨0x89dcccd2f28663f8, 0x63f80000001a28ab0d963d185fec000000000000000000000000⟩,
+      ⟨0x89dcce389b77b075, 0xb0750000000b127355fd91de2fd7000000000000000000000000⟩,
+      ⟨0x89dcfd660762117b, 0x117b000000110365b1192a1dcf15000000000000000000000000⟩]⟩
+
+example : checkIndex exColumnM = true ∧ exColumnM.tables.any (·.multipart) = true := by decide +kernel
+/- the model state rebuilt from the dump records the continuation slots of the chain -/
+example : ((colOf exColumnM).tier 255).chains = [(1, [2, 3, 4, 5, 6, 7, 8, 9, 10])] ∧
+    ((colOf exColumnM).tier 255).filled = 11 ∧ ((colOf exColumnM).tier 192).free = [1] := by
+  decide +kernel
+example := C14Dump_index_good exColumnM (by decide +kernel)
 /- a structural defect is rejected: the same table with its free-list head cut off -/
 example : slotsReason { exTable with lastRemoved := 0 } = some "header" := by decide +kernel
 /-- the same cut made consistently in the header: a slot is neither free nor live -/
